@@ -92,6 +92,30 @@ def gen_q(which, emb, maxlen=None, alphabet=None, pset=None):
     return {"module": "Gen_Quantile", "cfg": "Gen_Quantile_%s.cfg" % which, "overrides": ov, "family": "quantile", "embeddings": emb, "timeout": 7200}
 
 
+MC_HF = {"module": "MC_Histogram", "cfg": "MC_Histogram_find.cfg", "overrides": {"LEN": ("2", "3"), "BuildLen": ("4", "5")}, "timeout": 7200}
+MC_HF1 = {"module": "MC_Histogram", "cfg": "MC_Histogram_find.cfg", "overrides": {"LEN": "1", "BuildLen": "3"}}
+MC_HM = {"module": "MC_Histogram", "cfg": "MC_Histogram_merge.cfg", "overrides": {"MaxCount": ("3", "4")}, "timeout": 7200}
+
+
+def gen_h(mode, length, depth="3", simulate=None, skip=None):
+    j = {"module": "Gen_Histogram", "cfg": "Gen_Histogram_%s.cfg" % mode,
+         "overrides": {"LEN": str(length), "BuildLen": str(length + 1), "MaxDepth": depth}, "family": "histogram", "timeout": 7200}
+    if simulate:
+        j["simulate"] = simulate
+    if skip is not None:
+        j["skip"] = skip
+    return j
+
+
+def tr_h(length, n=("2000", "20000")):
+    return {"module": "Trace_Histogram", "cfg": "Trace_Histogram_%d.cfg" % length, "family": "histogram",
+            "args": {"n": n, "len": str(length)}, "timeout": 3600}
+
+
+H_HIST = [gen_h("hist", 1), gen_h("hist", 2, depth=("3", "4")), gen_h("hist", 3),
+          gen_h("hist", 2, depth="12", simulate={"num": 300, "depth": 12}, skip=(True, False)),
+          gen_h("hist", 4, depth="10", simulate={"num": 300, "depth": 10}, skip=(True, False))]
+
 PROPS = {
     "C01": {
         "title": "streaming mean/variance equal the exact statistics",
@@ -144,8 +168,8 @@ PROPS = {
     },
     "C11": {
         "title": "the empty estimator is an exact identity of merge; lengths add exactly",
-        "mc": [MC_MM, MC_W, MC_C, MC_MERGE],
-        "replay": [gen_mm("hist", depth=("3", "4")), gen_pair("Weighted", "hist", "E0:W0,E5:W2", depth=("3", "4")), gen_pair("Covariance", "hist", "E0:E0,E3:E5", depth=("3", "4")), gen_hist(ALLM, "E0,E3,E5"), gen_tree(ALLM, "E0")],
+        "mc": [MC_HM, MC_MM, MC_W, MC_C, MC_MERGE],
+        "replay": [gen_h("hist", 2, depth=("3", "4")), gen_h("hist", 3), gen_mm("hist", depth=("3", "4")), gen_pair("Weighted", "hist", "E0:W0,E5:W2", depth=("3", "4")), gen_pair("Covariance", "hist", "E0:E0,E3:E5", depth=("3", "4")), gen_hist(ALLM, "E0,E3,E5"), gen_tree(ALLM, "E0")],
         "rule": "every add/merge/clone/fresh/checkpoint history to the depth bound over two slots; at every merge the "
                 "destination's and source's full accessor vectors are compared bit for bit before/after",
         "bounds": {"quick": "depth <= 4", "thorough": "depth <= 5"},
@@ -162,8 +186,8 @@ PROPS = {
     },
     "C17": {
         "title": "variances are never negative and means stay within the data range",
-        "mc": [MC_W, MC_C, MC_SEQ, MC_MERGE],
-        "replay": [gen_pair("Weighted", "tree", "E0:W0,E6:W1,E7:W2,E8:W0,E9:W1", maxlen=("3", "4")), gen_pair("Covariance", "tree", "E6:E7,E8:E9,E9:E6", maxlen=("3", "4")), gen_seq(ALLM, E09), gen_tree(ALLM, "E0,E4,E6,E7,E8,E9"), gen_hist(ALLM, "E6,E7,E8,E9")],
+        "mc": [MC_HM, MC_W, MC_C, MC_SEQ, MC_MERGE],
+        "replay": [gen_h("hist", 2, depth=("3", "4")), gen_h("hist", 3), gen_pair("Weighted", "tree", "E0:W0,E6:W1,E7:W2,E8:W0,E9:W1", maxlen=("3", "4")), gen_pair("Covariance", "tree", "E6:E7,E8:E9,E9:E6", maxlen=("3", "4")), gen_seq(ALLM, E09), gen_tree(ALLM, "E0,E4,E6,E7,E8,E9"), gen_hist(ALLM, "E6,E7,E8,E9")],
         "rule": "all behaviours of C01/C02 replayed under embeddings without any conditioning bound (one-ulp spreads at 2^52, "
                 "denormals, 1e149, offsets 1e15 spreads); sign and range conditions on every observation",
         "bounds": {"quick": "L <= 5; tree L <= 4", "thorough": "L <= 7; tree L <= 5"},
@@ -172,7 +196,7 @@ PROPS = {
     "C18": {
         "title": "a serde round trip at any point is invisible",
         "mc": [MC_MERGE],
-        "replay": [gen_q("big", "E0,E5", maxlen=("7", "8")), gen_q("small", "E0"), gen_mm("hist", depth=("3", "4")), gen_pair("Weighted", "hist", "E0:W0,E5:W2", depth=("3", "4")), gen_pair("Covariance", "hist", "E0:E0,E3:E5", depth=("3", "4")), gen_hist(ALLM, "E0,E3,E5", depth=("5", "6"), slots=("{1}", "{1, 2}")), gen_hist(ALLM, "E0,E5")],
+        "replay": [gen_h("hist", 2, depth=("3", "4")), gen_h("hist", 1), gen_q("big", "E0,E5", maxlen=("7", "8")), gen_q("small", "E0"), gen_mm("hist", depth=("3", "4")), gen_pair("Weighted", "hist", "E0:W0,E5:W2", depth=("3", "4")), gen_pair("Covariance", "hist", "E0:E0,E3:E5", depth=("3", "4")), gen_hist(ALLM, "E0,E3,E5", depth=("5", "6"), slots=("{1}", "{1, 2}")), gen_hist(ALLM, "E0,E5")],
         "rule": "every history with checkpoints at every position; two real executions (with / without the JSON round trip) "
                 "compared bit for bit on every accessor",
         "bounds": {"quick": "depth <= 5 one slot, depth <= 4 two slots", "thorough": "depth <= 6 / 5"},
@@ -246,5 +270,41 @@ PROPS = {
                 "long recorded streams (validated by TLC as trace invariants); Quantile::new must panic for seven invalid p",
         "bounds": {"quick": "L <= 7; traces of 1,000", "thorough": "L <= 9; traces of 20,000"},
         "assumptions": ["marker state is read from the public serde form"],
+    },
+    "C06": {
+        "title": "a histogram counts each sample in the unique half-open bin that contains it",
+        "mc": [MC_HF1, MC_HF],
+        "replay": [gen_h("find", 1), gen_h("find", 2), gen_h("find", 3), gen_h("find", 4, skip=(True, False))] + H_HIST,
+        "trace": [tr_h(10), tr_h(100, n=("1500", "10000"))],
+        "rule": "every valid edge vector over {-inf,-1,-0.0,0,0.5,1,2,+inf} for LEN 1..3 (4 in the thorough tier), every sample of "
+                "the refined lattice (every edge value, its floating-point neighbours, midpoints, +-inf, +-f64::MAX, NaN, -0.0): "
+                "find and add against the definition; add histories; long random traces on LEN 10 and 100 validated by TLC",
+        "bounds": {"quick": "LEN 1..3 exhaustive; histories depth 3; traces 2,000 / 1,500 events", "thorough": "LEN 1..4; histories depth 4 + random walks; traces 20,000 / 10,000"},
+        "assumptions": ["the binary search of the installed standard library is transcribed in the specification (BinarySearch); a library "
+                        "that returns a different one of several equal elements is caught by the replay, not by the model"],
+    },
+    "C12": {
+        "title": "histogram construction accepts exactly the valid edge lists",
+        "mc": [MC_HF1, MC_HF],
+        "replay": [gen_h("build", 1), gen_h("build", 2), gen_h("build", 3), gen_h("build", 4, skip=(True, False)),
+                   gen_h("cw", 1), gen_h("cw", 2), gen_h("cw", 3), gen_h("cw", 4), gen_h("cw", 10), gen_h("cw", 100)] + H_HIST[:3],
+        "trace": [tr_h(10), tr_h(100, n=("1500", "10000"))],
+        "rule": "every list of length 0..LEN+1 over the nine tokens (NaN included) plus six kinds of surplus tail on every full-length "
+                "list, LEN 1..3 (4 thorough): result kind, first-offence error, edges handed back bit for bit; with_const_width on "
+                "21 integer pairs x 16 power-of-two scales (2^-100..2^100) for LEN 1,2,3,4,10,100; random lists for LEN 10/100 via traces",
+        "bounds": {"quick": "LEN 1..3", "thorough": "LEN 1..4"},
+        "assumptions": [],
+    },
+    "C13": {
+        "title": "histogram merge, +=, *=, reset and views are exact bin-wise operations",
+        "mc": [MC_HM],
+        "replay": H_HIST,
+        "trace": [tr_h(2), tr_h(10)],
+        "rule": "every history of build/add/merge/+=/*=/reset/clone/checkpoint over two slots and 4-6 edge vectors (equal, numerically "
+                "equal with different zero signs, different, infinite, with empty bins) to the depth bound: counts exact, panics "
+                "exactly on different edges without mutation, merge == += == reversed merge, iteration order, all views against "
+                "exact rationals / float classes (NaN checked explicitly)",
+        "bounds": {"quick": "LEN 1..3, depth 3", "thorough": "LEN 2 depth 4; random walks depth 12 (LEN 2) and 10 (LEN 4)"},
+        "assumptions": [],
     },
 }
